@@ -1035,7 +1035,7 @@ func GenPackage(t *rapid.T, cfg *GenConfig) *Package {
 		addBulkStream(root)
 	}
 	if cfg.TwiceGenericPct > 0 && g.chance("twiceGeneric", cfg.TwiceGenericPct) {
-		addTwiceInstantiated(root, g.chance("twiceFreshArgs", 70))
+		addTwiceInstantiated(root, g.chance("twiceFreshArgs", 70), g.chance("twiceViaAlias", 40), g.chance("twiceEnumArg", 40))
 	}
 	if cfg.Excl["union-tags-by-variant-type"] {
 		alignUnionTags(root, cfg)
@@ -1046,7 +1046,7 @@ func GenPackage(t *rapid.T, cfg *GenConfig) *Package {
 // addTwiceInstantiated: two steps of the first protocol instantiate the same generic record with two
 // different named types; with freshArgs the second argument type is referenced nowhere else, so it reaches
 // the protocol (its schema, its dependency order) only through the second instantiation.
-func addTwiceInstantiated(root *Package, freshArgs bool) {
+func addTwiceInstantiated(root *Package, freshArgs, viaAlias, enumB bool) {
 	var proto *Def
 	for _, d := range root.Defs {
 		if d.Kind == DProtocol {
@@ -1065,6 +1065,9 @@ func addTwiceInstantiated(root *Package, freshArgs bool) {
 	box := &Def{Kind: DRecord, Name: "TwiceBox", TypeParams: []string{"T"}, Fields: []Field{{Name: "item", Type: Param("T")}, {Name: "weight", Type: Prim("uint16")}}}
 	argA := &Def{Kind: DRecord, Name: "TwiceArgA", Fields: []Field{{Name: "level", Type: Prim("int32")}, {Name: "name", Type: Prim("string")}}}
 	argB := &Def{Kind: DRecord, Name: "TwiceArgB", Fields: []Field{{Name: "gain", Type: Prim("float32")}, {Name: "count", Type: Prim("uint32")}}}
+	if enumB {
+		argB = &Def{Kind: DEnum, Name: "TwiceArgB", Values: []EnumVal{{Symbol: "low", Value: 0, Explicit: true}, {Symbol: "mid", Value: 1, Explicit: true}, {Symbol: "high", Value: 2, Explicit: true}}}
+	}
 	news := []*Def{box, argA, argB}
 	a, b := Ref(root.Namespace, "TwiceArgA"), Ref(root.Namespace, "TwiceArgB")
 	if !freshArgs {
@@ -1090,9 +1093,25 @@ func addTwiceInstantiated(root *Package, freshArgs bool) {
 		defs = append(defs, d)
 	}
 	root.Defs = defs
+	generic := "TwiceBox"
+	if viaAlias && root.Find("TwiceAlias") == nil {
+		// the two instantiations go through a generic alias of the generic record
+		generic = "TwiceAlias"
+		al := &Def{Kind: DAlias, Name: "TwiceAlias", TypeParams: []string{"T"}, Type: Ref(root.Namespace, "TwiceBox", Param("T"))}
+		var defs2 []*Def
+		done := false
+		for _, d := range root.Defs {
+			if d.Kind == DProtocol && !done {
+				defs2 = append(defs2, al)
+				done = true
+			}
+			defs2 = append(defs2, d)
+		}
+		root.Defs = defs2
+	}
 	proto.Fields = append(proto.Fields,
-		Field{Name: "twiceFirst", Type: Ref(root.Namespace, "TwiceBox", a)},
-		Field{Name: "twiceSecond", Type: Stream(Ref(root.Namespace, "TwiceBox", b))})
+		Field{Name: "twiceFirst", Type: Ref(root.Namespace, generic, a)},
+		Field{Name: "twiceSecond", Type: Stream(Ref(root.Namespace, generic, b))})
 }
 
 // addBulkStream gives the first protocol a trailing stream step whose items are records made of
